@@ -78,6 +78,22 @@ theorem C08_ssz_SSVMessage_roundtrip (m : SSVMessage) (hid : m.msgID.length = 56
 theorem C08_ssz_SignedPartialSignatureMessage_roundtrip (m : SPSig) (h : m.WF) : decodeSPSig (encodeSPSig m) = .ok m :=
   decode_encodeSPSig h
 
+/-- the dynamic list codec (offset table + items, as the generated `MarshalSSZTo` writes the justification lists): for EVERY list
+    of byte lists within the limits, `DecodeDynamicLength` returns its length and `UnmarshalDynamic` returns the list itself -/
+theorem C08_ssz_dynamic_list_roundtrip (items : List (List Nat)) (hn : items.length ≤ 13)
+    (hM : ∀ x ∈ items, x.length ≤ 65536) :
+    decodeDynamicLength (encodeDyn items) 13 = .ok items.length ∧
+    unmarshalDynamic (encodeDyn items) items.length (justItem 65536) = .ok items := by
+  have hsum : items.flatten.length ≤ items.length * 65536 := by
+    clear hn
+    induction items with
+    | nil => simp
+    | cons x r ih =>
+      have := hM x (by simp)
+      have := ih (fun y hy => hM y (by simp [hy]))
+      simp only [List.flatten_cons, List.length_append, List.length_cons]; omega
+  exact ⟨decodeDynamicLength_enc items 13 hn (by omega), unmarshalDynamic_enc items 65536 hM (by omega)⟩
+
 /-- non-vacuity of the well-formedness predicate: a message with two partial signatures -/
 example : (⟨⟨1, 7, [⟨List.replicate 96 5, List.replicate 32 6, 3⟩, ⟨List.replicate 96 8, List.replicate 32 9, 4⟩]⟩,
     List.replicate 96 1, 2⟩ : SPSig).WF :=
